@@ -12,6 +12,22 @@
 //!
 //! The circuit for one dimension vector is built once (it depends on the dimensions, the cap size
 //! and the index-bit count only) and re-run with different public/private inputs.
+//!
+//! Second workload, "multi-opening" (`gen_seq` / `drive_multi`): ONE circuit verifies a sequence
+//! of 2–4 openings (same commitment at different indices, different commitments of different
+//! shape / cap height / leaf field / hiding flavour, narrow = single-chunk and wide = multi-chunk
+//! leaf rows in every order, optionally shared cap targets, siblings attached by one setter call
+//! per opening or by ONE call for the whole sequence). It observes state carried from one opening
+//! to the next (Poseidon executor chain state, the setters' op-id cursor):
+//!   (a) every opening honest and natively accepted  =>  `run()` must succeed
+//!       (`multi-opening/completeness/<config>/<sequence class>`, class e.g. `narrow>wide`);
+//!   (b) one alteration (same `Alt` enumeration) in the opening at position first / middle / last,
+//!       all other openings untouched: the circuit must reject iff some opening is natively
+//!       rejected (`multi-opening/accepts-altered/<config>/<alt kind>/<position class>`,
+//!       `multi-opening/rejects-native-accepted-alteration/...`).
+//! Commitments of the known single-opening defect class (arity-4 cap layer of logical width 2) are
+//! not put into sequences. Extra args: `--workload single|multi|all`, `--multi-n N`,
+//! `--multi-from K`, `--seq '<SeqCase json>'`; replay files of this workload carry `detail.multi`.
 
 use std::collections::{BTreeMap, BTreeSet};
 use std::sync::Mutex;
@@ -252,6 +268,41 @@ where
     }
 }
 
+/// A native side with the leaf type, the MMCS type and the digest width erased, so that one
+/// circuit can verify openings of commitments made with different MMCS flavours (plain / hiding,
+/// base / extension leaves, different cap heights) of the same configuration.
+trait DynSide<F, EF> {
+    fn roots(&self) -> Vec<Vec<F>>;
+    fn dg(&self) -> usize;
+    fn open(&self, index: usize) -> Opening<F>;
+    fn verify(&self, roots: &[Vec<F>], index: usize, op: &Opening<F>) -> Result<(), String>;
+    fn set_private(&self, runner: &mut CircuitRunner<'_, EF>, op_ids: &[NonPrimitiveOpId], op: &Opening<F>) -> Result<(), String>;
+}
+
+impl<F, EF, L, M, const DG: usize> DynSide<F, EF> for Side<F, EF, L, M, DG>
+where
+    F: Field,
+    L: ExtensionField<F>,
+    M: Mmcs<L, Commitment = MerkleCap<F, [F; DG]>>,
+    M::Proof: ProofParts<F, DG>,
+{
+    fn roots(&self) -> Vec<Vec<F>> {
+        Side::roots(self)
+    }
+    fn dg(&self) -> usize {
+        DG
+    }
+    fn open(&self, index: usize) -> Opening<F> {
+        Side::open(self, index)
+    }
+    fn verify(&self, roots: &[Vec<F>], index: usize, op: &Opening<F>) -> Result<(), String> {
+        Side::verify(self, roots, index, op)
+    }
+    fn set_private(&self, runner: &mut CircuitRunner<'_, EF>, op_ids: &[NonPrimitiveOpId], op: &Opening<F>) -> Result<(), String> {
+        Side::set_private(self, runner, op_ids, op)
+    }
+}
+
 // ------------------------------------------------------------------------------------------
 // Circuit side
 // ------------------------------------------------------------------------------------------
@@ -275,44 +326,117 @@ fn cap_chunk(cfg: PermConfig) -> usize {
     if cfg.is_arity4_shape() { cfg.capacity_ext() } else { cfg.rate_ext() }
 }
 
+/// Targets of ONE opening verification emitted into a builder.
+struct OpeningTargets {
+    op_ids: Vec<NonPrimitiveOpId>,
+    nbits: usize,
+    /// Cap entries (kept so that a later opening of the same commitment can share them).
+    cap: Vec<Vec<ExprId>>,
+    /// Were the cap entries allocated by this opening (true) or shared with an earlier one?
+    own_cap: bool,
+}
+
+/// Emit the verification of one opening of a commitment of shape `shape` into `b`.
+/// Allocation order (= public input order): opened rows, index bits, cap entries (unless
+/// `shared_cap` is given); salts are private inputs.
+fn emit_opening<F, EF>(
+    b: &mut CircuitBuilder<EF>,
+    cfg: PermConfig,
+    arity4: bool,
+    shape: &Shape,
+    n_roots: usize,
+    shared_cap: Option<&[Vec<ExprId>]>,
+) -> Result<OpeningTargets, String>
+where
+    F: PrimeField64 + TwoAdicField,
+    EF: ExtensionField<F>,
+{
+    let dims: Vec<Dimensions> = shape.dims.iter().map(|&(h, w)| Dimensions { height: h, width: w }).collect();
+    let opened: Vec<Vec<ExprId>> = shape.dims.iter().map(|&(_, w)| b.alloc_public_inputs(w, "opened row")).collect();
+    let nbits = p3_util::log2_ceil_usize(max_height(shape));
+    let bits = b.alloc_public_inputs(nbits, "index bits");
+    let chunk = cap_chunk(cfg);
+    let (cap, own_cap): (Vec<Vec<ExprId>>, bool) = match shared_cap {
+        Some(c) => (c.to_vec(), false),
+        None => ((0..n_roots).map(|_| b.alloc_public_inputs(chunk, "cap entry")).collect(), true),
+    };
+    let salts: Option<Vec<Vec<ExprId>>> = shape
+        .hiding
+        .then(|| dims.iter().map(|_| b.alloc_private_inputs(SALT, "hiding MMCS leaf salt")).collect());
+    let r = guarded(|| match (arity4, shape.ext_leaves) {
+        (false, false) => verify_batch_circuit::<F, EF>(b, cfg, &cap, &dims, &bits, &opened, salts.as_deref()),
+        (false, true) => {
+            verify_batch_circuit_from_extension_opened::<F, EF>(b, cfg, &cap, &dims, &bits, &opened, salts.as_deref())
+        }
+        (true, false) => verify_batch_circuit_arity4::<F, EF>(b, cfg, &cap, &dims, &bits, &opened),
+        (true, true) => verify_batch_circuit_from_extension_opened_arity4::<F, EF>(b, cfg, &cap, &dims, &bits, &opened),
+    });
+    match r {
+        Ok(Ok(op_ids)) => Ok(OpeningTargets { op_ids, nbits, cap, own_cap }),
+        Ok(Err(e)) => Err(format!("verify-fn-error: {e:?}")),
+        Err(p) => Err(format!("verify-fn-panic: {p}")),
+    }
+}
+
+fn finish_build<EF: Field>(b: CircuitBuilder<EF>) -> Result<Circuit<EF>, String> {
+    match guarded(|| b.build()) {
+        Ok(Ok(c)) => Ok(c),
+        Ok(Err(e)) => Err(format!("build-error: {e:?}")),
+        Err(p) => Err(format!("build-panic: {p}")),
+    }
+}
+
 fn build_circuit<F, EF>(env: &Env<'_, EF>, n_roots: usize) -> Result<Built<EF>, String>
 where
     F: PrimeField64 + TwoAdicField,
     EF: ExtensionField<F>,
 {
-    let shape = env.shape;
     let mut b = CircuitBuilder::<EF>::new();
     (env.enable)(&mut b);
     b.enable_recompose::<F>(generate_recompose_trace::<F, EF>);
-    let dims: Vec<Dimensions> = shape.dims.iter().map(|&(h, w)| Dimensions { height: h, width: w }).collect();
-    let opened: Vec<Vec<ExprId>> = shape.dims.iter().map(|&(_, w)| b.alloc_public_inputs(w, "opened row")).collect();
-    let nbits = p3_util::log2_ceil_usize(max_height(shape));
-    let bits = b.alloc_public_inputs(nbits, "index bits");
-    let chunk = cap_chunk(env.perm_cfg);
-    let cap: Vec<Vec<ExprId>> = (0..n_roots).map(|_| b.alloc_public_inputs(chunk, "cap entry")).collect();
-    let salts: Option<Vec<Vec<ExprId>>> = shape
-        .hiding
-        .then(|| dims.iter().map(|_| b.alloc_private_inputs(SALT, "hiding MMCS leaf salt")).collect());
-    let cfg = env.perm_cfg;
-    let r = guarded(|| match (env.arity4, shape.ext_leaves) {
-        (false, false) => verify_batch_circuit::<F, EF>(&mut b, cfg, &cap, &dims, &bits, &opened, salts.as_deref()),
-        (false, true) => {
-            verify_batch_circuit_from_extension_opened::<F, EF>(&mut b, cfg, &cap, &dims, &bits, &opened, salts.as_deref())
+    let t = emit_opening::<F, EF>(&mut b, env.perm_cfg, env.arity4, env.shape, n_roots, None)?;
+    let circuit = finish_build(b)?;
+    Ok(Built { circuit, op_ids: t.op_ids, nbits: t.nbits })
+}
+
+/// Append the public inputs (opened rows, index bits, cap entries when `with_cap`) and the private
+/// inputs (salts) of one opening, in the allocation order of [`emit_opening`].
+#[allow(clippy::too_many_arguments)]
+fn push_inputs<F, EF>(
+    cfg: PermConfig,
+    ext_leaves: bool,
+    nbits: usize,
+    with_cap: bool,
+    roots: &[Vec<F>],
+    index: usize,
+    op: &Opening<F>,
+    publics: &mut Vec<EF>,
+    privates: &mut Vec<EF>,
+) where
+    F: PrimeField64 + TwoAdicField,
+    EF: ExtensionField<F>,
+{
+    let d = <EF as BasedVectorSpace<F>>::DIMENSION;
+    let pack = |w: &[F]| <EF as BasedVectorSpace<F>>::from_basis_coefficients_slice(w).expect("pack");
+    for row in &op.rows {
+        if ext_leaves {
+            publics.extend(row.chunks(d).map(pack));
+        } else {
+            publics.extend(row.iter().map(|&w| EF::from(w)));
         }
-        (true, false) => verify_batch_circuit_arity4::<F, EF>(&mut b, cfg, &cap, &dims, &bits, &opened),
-        (true, true) => verify_batch_circuit_from_extension_opened_arity4::<F, EF>(&mut b, cfg, &cap, &dims, &bits, &opened),
-    });
-    let op_ids = match r {
-        Ok(Ok(ids)) => ids,
-        Ok(Err(e)) => return Err(format!("verify-fn-error: {e:?}")),
-        Err(p) => return Err(format!("verify-fn-panic: {p}")),
-    };
-    let circuit = match guarded(|| b.build()) {
-        Ok(Ok(c)) => c,
-        Ok(Err(e)) => return Err(format!("build-error: {e:?}")),
-        Err(p) => return Err(format!("build-panic: {p}")),
-    };
-    Ok(Built { circuit, op_ids, nbits })
+    }
+    publics.extend((0..nbits).map(|k| EF::from_bool((index >> k) & 1 == 1)));
+    if with_cap {
+        let packed = packs_digests::<F, EF>(cfg);
+        for r in roots {
+            if packed {
+                publics.extend(r.chunks(d).map(pack));
+            } else {
+                publics.extend(r.iter().map(|&w| EF::from(w)));
+            }
+        }
+    }
+    privates.extend(op.salts.iter().flatten().map(|&w| EF::from(w)));
 }
 
 #[derive(Clone, Debug, PartialEq)]
@@ -345,26 +469,9 @@ where
     M: Mmcs<L, Commitment = MerkleCap<F, [F; DG]>>,
     M::Proof: ProofParts<F, DG>,
 {
-    let d = <EF as BasedVectorSpace<F>>::DIMENSION;
-    let pack = |w: &[F]| <EF as BasedVectorSpace<F>>::from_basis_coefficients_slice(w).expect("pack");
     let mut publics: Vec<EF> = Vec::new();
-    for row in &op.rows {
-        if env.shape.ext_leaves {
-            publics.extend(row.chunks(d).map(pack));
-        } else {
-            publics.extend(row.iter().map(|&w| EF::from(w)));
-        }
-    }
-    publics.extend((0..built.nbits).map(|k| EF::from_bool((index >> k) & 1 == 1)));
-    let packed = packs_digests::<F, EF>(env.perm_cfg);
-    for r in roots {
-        if packed {
-            publics.extend(r.chunks(d).map(pack));
-        } else {
-            publics.extend(r.iter().map(|&w| EF::from(w)));
-        }
-    }
-    let privates: Vec<EF> = op.salts.iter().flatten().map(|&w| EF::from(w)).collect();
+    let mut privates: Vec<EF> = Vec::new();
+    push_inputs::<F, EF>(env.perm_cfg, env.shape.ext_leaves, built.nbits, true, roots, index, op, &mut publics, &mut privates);
 
     let mut runner = built.circuit.runner();
     runner.set_public_inputs(&publics).map_err(|e| format!("set_public_inputs: {e:?}"))?;
@@ -886,6 +993,549 @@ where
 }
 
 // ------------------------------------------------------------------------------------------
+// Multi-opening workload: a SEQUENCE of openings verified in ONE circuit
+// ------------------------------------------------------------------------------------------
+//
+// The Poseidon permutation executor carries chaining state from row to row (running sponge state,
+// running Merkle hash). A single opening per circuit never sees what a previous opening left
+// behind. Here 2–4 openings (same commitment at different indices, different commitments of
+// different shape / cap height / leaf field / hiding flavour) are emitted one after the other into
+// the same builder, exactly as the FRI verifier does for its queries, and the verdict of the one
+// `run()` is compared with the conjunction of the native verdicts.
+
+/// One multi-opening case. Everything needed to rebuild it is in here.
+#[derive(Clone, Debug, Serialize, Deserialize)]
+struct SeqCase {
+    config: String,
+    /// Committed batches; each has its own MMCS instance (cap height, hiding, leaf field).
+    commits: Vec<Shape>,
+    /// The openings verified in one circuit, in emission order: (commit number, index).
+    openings: Vec<(usize, usize)>,
+    /// Later openings of a commitment reuse the cap targets of its first opening (as the FRI
+    /// verifier does for its queries) instead of getting their own cap public inputs.
+    #[serde(default)]
+    share_cap: bool,
+    /// How the sibling digests are attached: 0 = one call of the repo's private-data setter per
+    /// opening; 1 / 2 = ONE call for the whole sequence (all op-ids concatenated, one FRI proof
+    /// skeleton holding every opening: 1 = queries of the form `base* ext*`, 2 = one opening per
+    /// query). 1 / 2 need a uniform hiding flavour (the setter is typed by the MMCS), otherwise 0 is used.
+    #[serde(default)]
+    grouped_private_data: u8,
+}
+
+enum MultiMode {
+    Explore,
+    Replay { pos: usize, alt: Alt },
+}
+
+struct MultiEnv<'a, EF: Field> {
+    case: &'a SeqCase,
+    perm_cfg: PermConfig,
+    arity4: bool,
+    enable: &'a dyn Fn(&mut CircuitBuilder<EF>),
+    mode: &'a MultiMode,
+    tier: Tier,
+    seed: u64,
+    seq_idx: usize,
+}
+
+/// The data of one opening of the sequence as presented to both verifiers.
+#[derive(Clone)]
+struct Item<F> {
+    commit: usize,
+    index: usize,
+    roots: Vec<Vec<F>>,
+    op: Opening<F>,
+}
+
+struct SeqBuilt<EF> {
+    circuit: Circuit<EF>,
+    per: Vec<OpeningTargets>,
+}
+
+fn build_seq<F, EF>(
+    env: &MultiEnv<'_, EF>,
+    openings: &[(usize, usize)],
+    n_roots: &[usize],
+    share_cap: bool,
+) -> Result<SeqBuilt<EF>, String>
+where
+    F: PrimeField64 + TwoAdicField,
+    EF: ExtensionField<F>,
+{
+    let mut b = CircuitBuilder::<EF>::new();
+    (env.enable)(&mut b);
+    b.enable_recompose::<F>(generate_recompose_trace::<F, EF>);
+    let mut per: Vec<OpeningTargets> = vec![];
+    let mut cap_owner: BTreeMap<usize, usize> = BTreeMap::new();
+    for (j, &(c, _)) in openings.iter().enumerate() {
+        let shared: Option<Vec<Vec<ExprId>>> =
+            if share_cap { cap_owner.get(&c).map(|&p| per[p].cap.clone()) } else { None };
+        let t = emit_opening::<F, EF>(&mut b, env.perm_cfg, env.arity4, &env.case.commits[c], n_roots[c], shared.as_deref())
+            .map_err(|e| format!("opening#{j}: {e}"))?;
+        if t.own_cap {
+            cap_owner.entry(c).or_insert(per.len());
+        }
+        per.push(t);
+    }
+    Ok(SeqBuilt { circuit: finish_build(b)?, per })
+}
+
+fn run_seq<F, EF>(
+    env: &MultiEnv<'_, EF>,
+    built: &SeqBuilt<EF>,
+    sides: &[Box<dyn DynSide<F, EF>>],
+    items: &[&Item<F>],
+    grouped: Option<(GroupSetFn<'_, F, EF>, bool)>,
+) -> Result<CircuitVerdict, String>
+where
+    F: PrimeField64 + TwoAdicField,
+    EF: ExtensionField<F>,
+{
+    let mut publics: Vec<EF> = Vec::new();
+    let mut privates: Vec<EF> = Vec::new();
+    for (t, it) in built.per.iter().zip(items) {
+        let ext = env.case.commits[it.commit].ext_leaves;
+        push_inputs::<F, EF>(env.perm_cfg, ext, t.nbits, t.own_cap, &it.roots, it.index, &it.op, &mut publics, &mut privates);
+    }
+    let mut runner = built.circuit.runner();
+    runner.set_public_inputs(&publics).map_err(|e| format!("set_public_inputs: {e:?}"))?;
+    if built.circuit.private_flat_len > 0 || !privates.is_empty() {
+        runner.set_private_inputs(&privates).map_err(|e| format!("set_private_inputs: {e:?}"))?;
+    }
+    match grouped {
+        Some((group_set, one_per_query)) => {
+            let hiding = env.case.commits[items[0].commit].hiding;
+            let ids: Vec<NonPrimitiveOpId> = built.per.iter().flat_map(|t| t.op_ids.iter().copied()).collect();
+            let parts: Vec<(bool, Vec<Vec<F>>)> =
+                items.iter().map(|it| (env.case.commits[it.commit].ext_leaves, it.op.siblings.clone())).collect();
+            let q = group_into_queries(&parts, one_per_query);
+            match guarded(|| group_set(&mut runner, &ids, hiding, q)) {
+                Ok(Ok(())) => {}
+                Ok(Err(e)) => return Ok(CircuitVerdict::PrivateDataRefused(format!("grouped setter call: {e}"))),
+                Err(p) => return Ok(CircuitVerdict::Panic(format!("set-private: {p}"))),
+            }
+        }
+        None => {
+            for (j, (t, it)) in built.per.iter().zip(items).enumerate() {
+                match guarded(|| sides[it.commit].set_private(&mut runner, &t.op_ids, &it.op)) {
+                    Ok(Ok(())) => {}
+                    Ok(Err(e)) => return Ok(CircuitVerdict::PrivateDataRefused(format!("opening#{j}: {e}"))),
+                    Err(p) => return Ok(CircuitVerdict::Panic(format!("set-private: {p}"))),
+                }
+            }
+        }
+    }
+    Ok(match guarded(move || runner.run()) {
+        Ok(Ok(_)) => CircuitVerdict::Accept,
+        Ok(Err(e)) => CircuitVerdict::Reject(format!("{e:?}").chars().take(400).collect()),
+        Err(p) => CircuitVerdict::Panic(p),
+    })
+}
+
+/// Base words (incl. salt) absorbed by the leaf-layer sponge = total of the tallest height group.
+fn leaf_layer_words(shape: &Shape, leaf_dim: usize) -> usize {
+    group_words(shape, leaf_dim).iter().next_back().map(|(_, w)| *w).unwrap_or(0)
+}
+
+/// `wide` = the leaf-layer sponge needs more than one absorb row (multi-chunk leaf).
+fn width_class(shape: &Shape, d: usize, rate: usize) -> &'static str {
+    let leaf_dim = if shape.ext_leaves { d } else { 1 };
+    if leaf_layer_words(shape, leaf_dim) > rate { "wide" } else { "narrow" }
+}
+
+fn pos_class(pos: usize, n: usize) -> &'static str {
+    if pos == 0 {
+        "first"
+    } else if pos + 1 == n {
+        "last"
+    } else {
+        "middle"
+    }
+}
+
+/// The known single-opening defect class (arity-4 cap layer of logical width 2, see
+/// `known_findings.jsonl`): such commitments are not put into sequences, the single-opening
+/// workload reports them.
+fn known_arity4_cap_layer_w2(arity4: bool, shape: &Shape) -> bool {
+    arity4 && shape.cap_height == 1 && max_height(shape) >= 3 && shape.dims.iter().any(|d| d.0 == 2)
+}
+
+fn both_accept_reason(alt: &Alt, shape: &Shape, n_roots: usize, selected_cap: Option<usize>) -> String {
+    let above_cap = |m: usize| shape.dims[m].0.next_power_of_two() < n_roots;
+    match alt {
+        Alt::Cap { entry, .. } if Some(*entry) != selected_cap => "cap-word:unselected-entry".to_string(),
+        Alt::Leaf { mat, .. } if above_cap(*mat) => "leaf-value:matrix-shorter-than-cap-layer".to_string(),
+        Alt::Salt { mat, .. } if above_cap(*mat) => "salt-word:matrix-shorter-than-cap-layer".to_string(),
+        Alt::Swap { a, b } if above_cap(*a) && above_cap(*b) => "swap-rows:matrices-shorter-than-cap-layer".to_string(),
+        other => format!("{}:unexplained(!)", other.kind()),
+    }
+}
+
+fn drive_multi<F, EF>(
+    env: &MultiEnv<'_, EF>,
+    make: &dyn Fn(&Shape) -> Box<dyn DynSide<F, EF>>,
+    group_set: GroupSetFn<'_, F, EF>,
+) -> Vec<CaseResult>
+where
+    F: PrimeField64 + TwoAdicField,
+    EF: ExtensionField<F>,
+{
+    let case = env.case;
+    let d = <EF as BasedVectorSpace<F>>::DIMENSION;
+    let rate = env.perm_cfg.rate();
+    let arity = if env.arity4 { 4 } else { 2 };
+    let n = case.openings.len();
+    if n == 0 || case.openings.iter().any(|&(c, i)| c >= case.commits.len() || i >= max_height(&case.commits[c])) {
+        return vec![CaseResult::inconclusive("multi|malformed", "malformed multi-opening case")];
+    }
+    let cdesc: Vec<String> = case
+        .commits
+        .iter()
+        .map(|s| {
+            format!("{:?}c{}{}{}", s.dims, s.cap_height, if s.hiding { 'h' } else { 'p' }, if s.ext_leaves { 'e' } else { 'b' })
+        })
+        .collect();
+    let classes: Vec<&'static str> = case.openings.iter().map(|&(c, _)| width_class(&case.commits[c], d, rate)).collect();
+    let seq_class = classes.join(">");
+    let skey = format!(
+        "multi|{}|{}|{}|{}",
+        case.config,
+        cdesc.join(";"),
+        case.openings
+            .iter()
+            .map(|&(c, i)| format!("{c}@{}", index_class(i, max_height(&case.commits[c]))))
+            .collect::<Vec<_>>()
+            .join(","),
+        if case.share_cap { "shared-cap" } else { "own-caps" }
+    ) + &format!("|pd{}", case.grouped_private_data);
+    let tab = |name: &str| format!("mo|{}|{}|{}", case.config, seq_class, name);
+    let detail = |pos: usize, alt: &Alt, extra: Value| -> Value {
+        json!({"multi": case, "alt_pos": pos, "alt": alt, "arity": arity, "sequence_class": seq_class,
+               "position_classes": classes, "extra": extra})
+    };
+
+    // ---- native side: commit every batch, open, and make sure native accepts every honest opening
+    let mut sides: Vec<Box<dyn DynSide<F, EF>>> = vec![];
+    for s in &case.commits {
+        match guarded(|| make(s)) {
+            Ok(side) => sides.push(side),
+            Err(p) => {
+                let msg: String = p.split(" @ ").next().unwrap_or("").chars().take(70).collect();
+                return vec![CaseResult::inconclusive(skey, format!("multi: native commit panicked: {msg}"))];
+            }
+        }
+    }
+    let all_roots: Vec<Vec<Vec<F>>> = sides.iter().map(|s| s.roots()).collect();
+    let n_roots: Vec<usize> = all_roots.iter().map(|r| r.len()).collect();
+    let mut items: Vec<Item<F>> = vec![];
+    for &(c, index) in &case.openings {
+        let op = match guarded(|| sides[c].open(index)) {
+            Ok(o) => o,
+            Err(p) => return vec![CaseResult::inconclusive(skey, format!("multi: native open panicked: {}", panic_site(&p)))],
+        };
+        match guarded(|| sides[c].verify(&all_roots[c], index, &op)) {
+            Ok(Ok(())) => {}
+            other => {
+                return vec![CaseResult::inconclusive(
+                    skey,
+                    format!("multi: native verifier did not accept its own opening: {other:?}").chars().take(160).collect::<String>(),
+                )];
+            }
+        }
+        items.push(Item { commit: c, index, roots: all_roots[c].clone(), op });
+    }
+
+    // ---- one circuit for the whole sequence
+    let built = match build_seq::<F, EF>(env, &case.openings, &n_roots, case.share_cap) {
+        Ok(b) => b,
+        Err(e) => {
+            return vec![CaseResult::violated(
+                format!("{skey}|build"),
+                format!("multi-opening/completeness/{}/{}", case.config, seq_class),
+                detail(0, &Alt::Honest, json!({"stage": "build", "build_error": e})),
+            )];
+        }
+    };
+
+    observe("multi-sequence-classes", format!("arity{arity}/{seq_class}"));
+    observe("multi-sequence-lengths", n.to_string());
+    let distinct_commits: BTreeSet<usize> = case.openings.iter().map(|o| o.0).collect();
+    let pattern = if distinct_commits.len() == 1 {
+        "same-commitment"
+    } else if distinct_commits.len() == n {
+        "distinct-commitments"
+    } else {
+        "interleaved-commitments"
+    };
+    let used = |f: &dyn Fn(&Shape) -> usize| -> bool {
+        distinct_commits.iter().map(|&c| f(&case.commits[c])).collect::<BTreeSet<_>>().len() > 1
+    };
+    let mixed_leaf_field = used(&|s| s.ext_leaves as usize);
+    let mixed_hiding = used(&|s| s.hiding as usize);
+    let mixed_cap = used(&|s| s.cap_height);
+    let mixed_height = used(&max_height);
+    let nonfirst_wide = classes.iter().skip(1).any(|c| *c == "wide");
+    if nonfirst_wide {
+        observe("multi-configs-with-non-first-wide-opening", case.config.clone());
+    }
+    for &c in &distinct_commits {
+        let s = &case.commits[c];
+        observe(
+            "multi-variants",
+            format!("{}/{}/{}", case.config, if s.hiding { "hiding" } else { "plain" }, if s.ext_leaves { "ext-leaves" } else { "base-leaves" }),
+        );
+        let leaf_dim = if s.ext_leaves { d } else { 1 };
+        let gw = group_words(s, leaf_dim);
+        if gw.len() > 1 && gw.iter().rev().skip(1).any(|(_, w)| *w > rate) {
+            observe("multi-injected-row-shapes", "multi-chunk");
+        }
+    }
+
+    let uniform_hiding = distinct_commits.iter().map(|&c| case.commits[c].hiding).collect::<BTreeSet<_>>().len() == 1;
+    let grouped: Option<(GroupSetFn<'_, F, EF>, bool)> = match case.grouped_private_data {
+        1 | 2 if uniform_hiding => Some((group_set, case.grouped_private_data == 2)),
+        _ => None,
+    };
+    let setter_mode = match grouped {
+        None => "one-setter-call-per-opening",
+        Some((_, false)) => "one-setter-call/queries-base*ext*",
+        Some((_, true)) => "one-setter-call/one-opening-per-query",
+    };
+    let all: Vec<&Item<F>> = items.iter().collect();
+    let honest = match run_seq(env, &built, &sides, &all, grouped) {
+        Ok(v) => v,
+        Err(e) => return vec![CaseResult::inconclusive(format!("{skey}|honest"), format!("multi harness: {}", err_variant(&e)))],
+    };
+    if honest != CircuitVerdict::Accept {
+        // Diagnosis for the report: does every opening pass when it is alone in a circuit?
+        let alone: Vec<String> = (0..n)
+            .map(|j| {
+                let r = build_seq::<F, EF>(env, &case.openings[j..j + 1], &n_roots, false)
+                    .and_then(|b1| run_seq(env, &b1, &sides, &[&items[j]], None));
+                match r {
+                    Ok(CircuitVerdict::Accept) => "accept".to_string(),
+                    Ok(v) => format!("{v:?}").chars().take(60).collect(),
+                    Err(e) => format!("harness: {e}").chars().take(60).collect(),
+                }
+            })
+            .collect();
+        // ... and which is the shortest failing prefix of the sequence?
+        let failing_prefix = (1..=n).find(|&m| {
+            let r = build_seq::<F, EF>(env, &case.openings[..m], &n_roots, case.share_cap)
+                .and_then(|bm| run_seq(env, &bm, &sides, &all[..m], grouped));
+            !matches!(r, Ok(CircuitVerdict::Accept))
+        });
+        return vec![
+            CaseResult::violated(
+                format!("{skey}|honest"),
+                format!("multi-opening/completeness/{}/{}", case.config, seq_class),
+                detail(
+                    0,
+                    &Alt::Honest,
+                    json!({"stage": "run", "native": "accepts every opening", "circuit": format!("{honest:?}"),
+                           "each_opening_alone_in_its_own_circuit": alone, "shortest_failing_prefix_len": failing_prefix,
+                           "pattern": pattern, "private_data_setter": setter_mode}),
+                ),
+            )
+            .count(tab("honest-REJECTED"), 1),
+        ];
+    }
+
+    let mut held: BTreeMap<String, BTreeMap<String, u64>> = BTreeMap::new();
+    let mut out: Vec<CaseResult> = vec![];
+    {
+        let e = held.entry(format!("{skey}|honest")).or_default();
+        let mut c = |name: String, v: u64| *e.entry(name).or_default() += v;
+        c("multi/sequences".into(), 1);
+        c("multi/openings".into(), n as u64);
+        c("multi/honest-sequences-accepted".into(), 1);
+        c(format!("multi/len/{n}"), 1);
+        c(format!("multi/pattern/{pattern}"), 1);
+        c(format!("multi/private-data/{setter_mode}"), 1);
+        c(format!("multi/sequences/{}", case.config), 1);
+        c(tab("sequences"), 1);
+        c(tab("honest-accepted"), 1);
+        for (flag, name) in [
+            (case.share_cap, "shared-cap-targets"),
+            (mixed_leaf_field, "mixed-leaf-field"),
+            (mixed_hiding, "mixed-hiding"),
+            (mixed_cap, "mixed-cap-height"),
+            (mixed_height, "mixed-max-height"),
+            (nonfirst_wide, "non-first-wide-opening"),
+        ] {
+            if flag {
+                c(format!("multi/with/{name}"), 1);
+            }
+        }
+    }
+
+    // ---- one alteration, applied to the opening at position k only
+    let mut rng = case_rng(env.seed, "c08-multi-alt", env.seq_idx as u64);
+    let positions: Vec<usize> = match env.mode {
+        MultiMode::Replay { pos, .. } => vec![(*pos).min(n - 1)],
+        MultiMode::Explore => match env.tier {
+            Tier::Thorough => (0..n).collect(),
+            Tier::Quick => {
+                let mut v = vec![0];
+                if n >= 3 {
+                    v.push(1 + rng.random_range(0..n - 2));
+                }
+                v.push(n - 1);
+                v
+            }
+        },
+    };
+    let (quota, q_bits) = match env.tier {
+        Tier::Quick => (Quota { leaf: 2, sib: 1, cap: 2, salt: 1, swap: 1 }, 2),
+        Tier::Thorough => (Quota { leaf: 4, sib: 3, cap: 2, salt: 2, swap: 2 }, 6),
+    };
+    let mut viol_per_sig: BTreeMap<String, usize> = BTreeMap::new();
+    for k in positions {
+        let pcls = pos_class(k, n);
+        let it = &items[k];
+        let shape = &case.commits[it.commit];
+        let side = &sides[it.commit];
+        let selected_cap = if it.roots.len() > 1 {
+            (0..it.roots.len()).find(|&e| {
+                let mut r2 = it.roots.clone();
+                r2[e][0] += F::ONE;
+                matches!(guarded(|| side.verify(&r2, it.index, &it.op)), Ok(Err(_)))
+            })
+        } else {
+            Some(0)
+        };
+        let alts: Vec<Alt> = match env.mode {
+            MultiMode::Replay { alt, .. } => vec![alt.clone()],
+            MultiMode::Explore => {
+                let rot = env.seq_idx / CONFIGS.len() + k;
+                let nbits = built.per[k].nbits;
+                let keep_bits = rotating(nbits, q_bits, rot);
+                enumerate_alts(&mut rng, shape, &it.op, it.roots.len(), side.dg(), nbits, selected_cap, &quota, rot)
+                    .into_iter()
+                    .filter(|a| !matches!(a, Alt::IndexBit { bit } if !keep_bits.contains(bit)))
+                    .collect()
+            }
+        };
+        for alt in alts {
+            if alt == Alt::Honest {
+                continue;
+            }
+            let key = format!("{skey}|{pcls}|{}", alt.kind());
+            let Some((idx2, roots2, op2)) = apply_alt(&alt, shape, it.index, &it.roots, &it.op) else {
+                out.push(CaseResult::inconclusive(key, "multi: alteration not applicable"));
+                continue;
+            };
+            // Only opening k changes; with shared cap targets a cap alteration necessarily reaches
+            // every opening of that commitment (there is one set of cap public inputs).
+            let mut items2: Vec<Item<F>> = items.clone();
+            items2[k] = Item { commit: it.commit, index: idx2, roots: roots2.clone(), op: op2 };
+            let mut touched = vec![k];
+            if case.share_cap && matches!(alt, Alt::Cap { .. }) {
+                for j in 0..n {
+                    if j != k && items2[j].commit == it.commit {
+                        items2[j].roots = roots2.clone();
+                        touched.push(j);
+                    }
+                }
+            }
+            let mut native: Vec<Result<(), String>> = vec![Ok(()); n];
+            let mut native_panic = None;
+            for &j in &touched {
+                let x = &items2[j];
+                match guarded(|| sides[x.commit].verify(&x.roots, x.index, &x.op)) {
+                    Ok(r) => native[j] = r,
+                    Err(p) => native_panic = Some(p),
+                }
+            }
+            if let Some(p) = native_panic {
+                out.push(CaseResult::inconclusive(key, format!("multi: native verifier panicked: {}", panic_site(&p))));
+                continue;
+            }
+            let native_accepts = native.iter().all(|r| r.is_ok());
+            let refs: Vec<&Item<F>> = items2.iter().collect();
+            let cv = match run_seq(env, &built, &sides, &refs, grouped) {
+                Ok(v) => v,
+                Err(e) => {
+                    out.push(CaseResult::inconclusive(key, format!("multi harness: {}", err_variant(&e))));
+                    continue;
+                }
+            };
+            let dd = || {
+                detail(
+                    k,
+                    &alt,
+                    json!({"native_per_opening": native.iter().map(|r| match r { Ok(()) => "accept".to_string(), Err(e) => format!("reject: {e}") }).collect::<Vec<_>>(),
+                           "circuit": format!("{cv:?}"), "selected_cap_entry": selected_cap, "position_class": pcls,
+                           "openings_with_changed_data": touched}),
+                )
+            };
+            let mut push_violation = |out: &mut Vec<CaseResult>, sig: String, dv: Value| {
+                let c = viol_per_sig.entry(sig.clone()).or_default();
+                *c += 1;
+                if *c <= 2 {
+                    out.push(CaseResult::violated(key.clone(), sig, dv));
+                }
+            };
+            let mut counters: Vec<String> = vec![format!("multi/alt/{}", alt.kind()), format!("multi/pos/{pcls}")];
+            match (&cv, native_accepts) {
+                (CircuitVerdict::Accept, true) => {
+                    counters.push("multi/altered-accepted-by-both".into());
+                    counters.push(tab("altered-accepted-by-both"));
+                    observe("multi-both-accept-explanations", both_accept_reason(&alt, shape, it.roots.len(), selected_cap));
+                }
+                (CircuitVerdict::Reject(v), false) => {
+                    counters.push("multi/altered-rejected".into());
+                    counters.push(format!("multi/altered-rejected/{pcls}"));
+                    counters.push(tab("altered-rejected"));
+                    observe("multi-circuit-reject-errors", err_variant(v));
+                }
+                (CircuitVerdict::Panic(p), false) => {
+                    counters.push("multi/circuit-panic-counted-as-reject".into());
+                    counters.push(tab("altered-rejected"));
+                    observe("multi-circuit-panics-on-rejected-openings", panic_site(p));
+                }
+                (CircuitVerdict::Accept, false) => {
+                    push_violation(&mut out, format!("multi-opening/accepts-altered/{}/{}/{pcls}", case.config, alt.kind()), dd());
+                    continue;
+                }
+                (CircuitVerdict::Reject(_) | CircuitVerdict::Panic(_), true) => {
+                    push_violation(
+                        &mut out,
+                        format!("multi-opening/rejects-native-accepted-alteration/{}/{}/{pcls}", case.config, alt.kind()),
+                        dd(),
+                    );
+                    continue;
+                }
+                (CircuitVerdict::PrivateDataRefused(_), _) => {
+                    out.push(CaseResult::inconclusive(key, "multi: private data refused for an altered opening of unchanged shape"));
+                    continue;
+                }
+            }
+            let e = held.entry(key).or_default();
+            for c in counters {
+                *e.entry(c).or_default() += 1;
+            }
+        }
+    }
+
+    let mut first = true;
+    for (key, counters) in held {
+        let mut r = CaseResult::held(key, true);
+        for (c, v) in counters {
+            r = r.count(c, v);
+        }
+        if first && env.seq_idx < 3 * CONFIGS.len() {
+            r = r.with_sample(json!({"workload": "multi-opening", "case": case, "arity": arity, "sequence_class": seq_class,
+                "pattern": pattern, "private_data_setter": setter_mode, "mmcs_op_ids_per_opening": built.per.iter().map(|t| t.op_ids.len()).collect::<Vec<_>>()}));
+        }
+        first = false;
+        out.push(r);
+    }
+    out
+}
+
+// ------------------------------------------------------------------------------------------
 // Configurations
 // ------------------------------------------------------------------------------------------
 
@@ -927,7 +1577,62 @@ where
     }
 }
 
+/// A FRI proof skeleton carrying SEVERAL MMCS opening proofs: `queries[q] = (input-batch proofs,
+/// commit-phase proofs)`. The repo's private-data setters walk it with one running op-id cursor.
+fn dummy_fri_proof_many<F, EF, FM, IM>(queries: Vec<(Vec<IM::Proof>, Vec<FM::Proof>)>) -> FriProof<EF, FM, F, Vec<BatchOpening<F, IM>>>
+where
+    F: Field,
+    EF: ExtensionField<F>,
+    FM: Mmcs<EF>,
+    IM: Mmcs<F>,
+{
+    FriProof {
+        commit_phase_commits: vec![],
+        commit_pow_witnesses: vec![],
+        query_proofs: queries
+            .into_iter()
+            .map(|(inputs, phases)| QueryProof {
+                input_proof: inputs.into_iter().map(|p| BatchOpening::new(vec![], p)).collect(),
+                commit_phase_openings: phases
+                    .into_iter()
+                    .map(|p| CommitPhaseProofStep { log_arity: 1, sibling_values: vec![], opening_proof: p })
+                    .collect(),
+            })
+            .collect(),
+        final_poly: vec![],
+        query_pow_witness: F::ZERO,
+    }
+}
+
+/// Sibling digests of several openings, grouped into FRI queries: per query the base-leaf
+/// (input batch) openings, then the extension-leaf (commit phase) openings.
+type GroupedSiblings<F> = Vec<(Vec<Vec<Vec<F>>>, Vec<Vec<Vec<F>>>)>;
+
+/// Split a sequence of openings (`true` = extension leaves) into FRI queries preserving the order
+/// of the op-ids: `one_per_query` puts every opening into its own query, otherwise a query takes
+/// a maximal run `base* ext*`.
+fn group_into_queries<F: Clone>(parts: &[(bool, Vec<Vec<F>>)], one_per_query: bool) -> GroupedSiblings<F> {
+    let mut out: GroupedSiblings<F> = vec![];
+    for (ext, sibs) in parts {
+        let start_new = match out.last() {
+            None => true,
+            Some(_) if one_per_query => true,
+            Some((_, phases)) => !*ext && !phases.is_empty(),
+        };
+        if start_new {
+            out.push((vec![], vec![]));
+        }
+        let q = out.last_mut().unwrap();
+        if *ext { q.1.push(sibs.clone()) } else { q.0.push(sibs.clone()) }
+    }
+    out
+}
+
+type GroupSetFn<'a, F, EF> =
+    &'a dyn Fn(&mut CircuitRunner<'_, EF>, &[NonPrimitiveOpId], bool, GroupedSiblings<F>) -> Result<(), &'static str>;
+
 type RunFn = fn(&Shape, &Mode, Tier, u64, usize) -> Vec<CaseResult>;
+type MultiRunFn = fn(&SeqCase, &MultiMode, Tier, u64, usize) -> Vec<CaseResult>;
 
 macro_rules! cfg_arity2 {
     ($m:ident, $F:ty, $EF:ty, $Perm:ty, $perm:expr, $W:expr, $RATE:expr, $DG:expr, $pcfg:expr, $enable:expr) => {
@@ -980,6 +1685,42 @@ macro_rules! cfg_arity2 {
                     (true, true) => drive::<F, EF, EF, HExt, DG>(HExt::new(HVal::new(h, c, cap, salt_rng)), sp_hext, &env),
                 }
             }
+
+            pub fn run_multi(case: &SeqCase, mode: &MultiMode, tier: Tier, seed: u64, seq_idx: usize) -> Vec<CaseResult> {
+                let perm: Perm = $perm;
+                let en: fn(&mut CircuitBuilder<EF>, Perm) = $enable;
+                let enable = |b: &mut CircuitBuilder<EF>| en(b, perm.clone());
+                let make = |shape: &Shape| -> Box<dyn DynSide<F, EF>> {
+                    let (h, c) = (H::new(perm.clone()), C::new(perm.clone()));
+                    let salt_rng = SmallRng::seed_from_u64(shape.mat_seed ^ 0x5a17);
+                    let cap = shape.cap_height;
+                    match (shape.hiding, shape.ext_leaves) {
+                        (false, false) => Box::new(Side::<F, EF, F, Val, DG>::new(Val::new(h, c, cap), shape, sp_base)),
+                        (false, true) => Box::new(Side::<F, EF, EF, Ext, DG>::new(Ext::new(Val::new(h, c, cap)), shape, sp_ext)),
+                        (true, false) => Box::new(Side::<F, EF, F, HVal, DG>::new(HVal::new(h, c, cap, salt_rng), shape, sp_hbase)),
+                        (true, true) => {
+                            Box::new(Side::<F, EF, EF, HExt, DG>::new(HExt::new(HVal::new(h, c, cap, salt_rng)), shape, sp_hext))
+                        }
+                    }
+                };
+                let arr = |v: Vec<Vec<Vec<F>>>| -> Vec<Vec<[F; DG]>> {
+                    v.iter().map(|o| o.iter().map(|d| to_arr::<F, DG>(d)).collect()).collect()
+                };
+                let group_set = |r: &mut CircuitRunner<'_, EF>, ids: &[NonPrimitiveOpId], hiding: bool, q: GroupedSiblings<F>| {
+                    if hiding {
+                        let salted = |v: Vec<Vec<[F; DG]>>| v.into_iter().map(|o| (vec![], o)).collect::<Vec<_>>();
+                        let p = dummy_fri_proof_many::<F, EF, HExt, HVal>(
+                            q.into_iter().map(|(i, c)| (salted(arr(i)), salted(arr(c)))).collect(),
+                        );
+                        set_salted_fri_mmcs_private_data::<F, EF, HExt, HVal, DG>(r, ids, &p, pcfg())
+                    } else {
+                        let p = dummy_fri_proof_many::<F, EF, Ext, Val>(q.into_iter().map(|(i, c)| (arr(i), arr(c))).collect());
+                        set_fri_mmcs_private_data::<F, EF, Ext, Val, H, C, DG>(r, ids, &p, pcfg())
+                    }
+                };
+                let env = MultiEnv { case, perm_cfg: pcfg(), arity4: false, enable: &enable, mode, tier, seed, seq_idx };
+                drive_multi::<F, EF>(&env, &make, &group_set)
+            }
         }
     };
 }
@@ -1022,6 +1763,31 @@ macro_rules! cfg_arity4 {
                 } else {
                     drive::<F, EF, F, Val, DG>(Val::new(h, c, cap), sp_base, &env)
                 }
+            }
+
+            pub fn run_multi(case: &SeqCase, mode: &MultiMode, tier: Tier, seed: u64, seq_idx: usize) -> Vec<CaseResult> {
+                let perm: Perm = $perm;
+                let en: fn(&mut CircuitBuilder<EF>, Perm) = $enable;
+                let enable = |b: &mut CircuitBuilder<EF>| en(b, perm.clone());
+                // (the repo wires no hiding arity-4 MMCS in-circuit: `hiding` is never set for these configs)
+                let make = |shape: &Shape| -> Box<dyn DynSide<F, EF>> {
+                    let (h, c) = (H::new(perm.clone()), C::new(perm.clone()));
+                    let cap = shape.cap_height;
+                    if shape.ext_leaves {
+                        Box::new(Side::<F, EF, EF, Ext, DG>::new(Ext::new(Val::new(h, c, cap)), shape, sp_ext))
+                    } else {
+                        Box::new(Side::<F, EF, F, Val, DG>::new(Val::new(h, c, cap), shape, sp_base))
+                    }
+                };
+                let arr = |v: Vec<Vec<Vec<F>>>| -> Vec<Vec<[F; DG]>> {
+                    v.iter().map(|o| o.iter().map(|d| to_arr::<F, DG>(d)).collect()).collect()
+                };
+                let group_set = |r: &mut CircuitRunner<'_, EF>, ids: &[NonPrimitiveOpId], _hiding: bool, q: GroupedSiblings<F>| {
+                    let p = dummy_fri_proof_many::<F, EF, Ext, Val>(q.into_iter().map(|(i, c)| (arr(i), arr(c))).collect());
+                    set_fri_mmcs_private_data_arity4::<F, EF, Ext, Val, DG>(r, ids, &p, pcfg())
+                };
+                let env = MultiEnv { case, perm_cfg: pcfg(), arity4: true, enable: &enable, mode, tier, seed, seq_idx };
+                drive_multi::<F, EF>(&env, &make, &group_set)
             }
         }
     };
@@ -1129,22 +1895,23 @@ struct ConfigInfo {
     /// extension degree of the circuit field (= words per extension leaf element)
     d: usize,
     run: RunFn,
+    run_multi: MultiRunFn,
 }
 
 const CONFIGS: &[ConfigInfo] = &[
-    ConfigInfo { name: "babybear-poseidon2-d4-w16", arity4: false, rate: 8, d: 4, run: bb_p2_d4_w16::run },
-    ConfigInfo { name: "koalabear-poseidon2-d4-w32-arity4", arity4: true, rate: 24, d: 4, run: kb_p2_d4_w32::run },
-    ConfigInfo { name: "koalabear-poseidon2-d4-w16", arity4: false, rate: 8, d: 4, run: kb_p2_d4_w16::run },
-    ConfigInfo { name: "babybear-poseidon2-d4-w32-arity4", arity4: true, rate: 24, d: 4, run: bb_p2_d4_w32::run },
-    ConfigInfo { name: "goldilocks-poseidon2-d2-w8", arity4: false, rate: 4, d: 2, run: gl_p2_d2_w8::run },
-    ConfigInfo { name: "goldilocks-poseidon2-d2-w16-arity4", arity4: true, rate: 12, d: 2, run: gl_p2_d2_w16::run },
-    ConfigInfo { name: "babybear-poseidon1-d4-w16", arity4: false, rate: 8, d: 4, run: bb_p1_d4_w16::run },
-    ConfigInfo { name: "koalabear-poseidon2-d1-w32-quintic-arity4", arity4: true, rate: 24, d: 5, run: kb_p2_d1_w32_quintic::run },
-    ConfigInfo { name: "koalabear-poseidon1-d4-w16", arity4: false, rate: 8, d: 4, run: kb_p1_d4_w16::run },
-    ConfigInfo { name: "koalabear-poseidon2-d1-w16-quintic", arity4: false, rate: 8, d: 5, run: kb_p2_d1_w16_quintic::run },
-    ConfigInfo { name: "goldilocks-poseidon1-d2-w8", arity4: false, rate: 4, d: 2, run: gl_p1_d2_w8::run },
-    ConfigInfo { name: "babybear-poseidon2-d1-w16-basefield", arity4: false, rate: 8, d: 1, run: bb_p2_d1_w16_base::run },
-    ConfigInfo { name: "koalabear-poseidon1-d1-w16-quintic", arity4: false, rate: 8, d: 5, run: kb_p1_d1_w16_quintic::run },
+    ConfigInfo { name: "babybear-poseidon2-d4-w16", arity4: false, rate: 8, d: 4, run: bb_p2_d4_w16::run, run_multi: bb_p2_d4_w16::run_multi },
+    ConfigInfo { name: "koalabear-poseidon2-d4-w32-arity4", arity4: true, rate: 24, d: 4, run: kb_p2_d4_w32::run, run_multi: kb_p2_d4_w32::run_multi },
+    ConfigInfo { name: "koalabear-poseidon2-d4-w16", arity4: false, rate: 8, d: 4, run: kb_p2_d4_w16::run, run_multi: kb_p2_d4_w16::run_multi },
+    ConfigInfo { name: "babybear-poseidon2-d4-w32-arity4", arity4: true, rate: 24, d: 4, run: bb_p2_d4_w32::run, run_multi: bb_p2_d4_w32::run_multi },
+    ConfigInfo { name: "goldilocks-poseidon2-d2-w8", arity4: false, rate: 4, d: 2, run: gl_p2_d2_w8::run, run_multi: gl_p2_d2_w8::run_multi },
+    ConfigInfo { name: "goldilocks-poseidon2-d2-w16-arity4", arity4: true, rate: 12, d: 2, run: gl_p2_d2_w16::run, run_multi: gl_p2_d2_w16::run_multi },
+    ConfigInfo { name: "babybear-poseidon1-d4-w16", arity4: false, rate: 8, d: 4, run: bb_p1_d4_w16::run, run_multi: bb_p1_d4_w16::run_multi },
+    ConfigInfo { name: "koalabear-poseidon2-d1-w32-quintic-arity4", arity4: true, rate: 24, d: 5, run: kb_p2_d1_w32_quintic::run, run_multi: kb_p2_d1_w32_quintic::run_multi },
+    ConfigInfo { name: "koalabear-poseidon1-d4-w16", arity4: false, rate: 8, d: 4, run: kb_p1_d4_w16::run, run_multi: kb_p1_d4_w16::run_multi },
+    ConfigInfo { name: "koalabear-poseidon2-d1-w16-quintic", arity4: false, rate: 8, d: 5, run: kb_p2_d1_w16_quintic::run, run_multi: kb_p2_d1_w16_quintic::run_multi },
+    ConfigInfo { name: "goldilocks-poseidon1-d2-w8", arity4: false, rate: 4, d: 2, run: gl_p1_d2_w8::run, run_multi: gl_p1_d2_w8::run_multi },
+    ConfigInfo { name: "babybear-poseidon2-d1-w16-basefield", arity4: false, rate: 8, d: 1, run: bb_p2_d1_w16_base::run, run_multi: bb_p2_d1_w16_base::run_multi },
+    ConfigInfo { name: "koalabear-poseidon1-d1-w16-quintic", arity4: false, rate: 8, d: 5, run: kb_p1_d1_w16_quintic::run, run_multi: kb_p1_d1_w16_quintic::run_multi },
 ];
 
 fn config_by_name(name: &str) -> Option<&'static ConfigInfo> {
@@ -1232,6 +1999,180 @@ fn run_shape(shape: &Shape, mode: &Mode, tier: Tier, seed: u64, vec_idx: usize) 
     }
 }
 
+// ------------------------------------------------------------------------------------------
+// Generator of multi-opening sequences
+// ------------------------------------------------------------------------------------------
+
+/// Random composition of `total` into `parts` positive summands.
+fn compose(rng: &mut SmallRng, total: usize, parts: usize) -> Vec<usize> {
+    let mut v = vec![1usize; parts];
+    for _ in parts..total {
+        let p = rng.random_range(0..parts);
+        v[p] += 1;
+    }
+    v
+}
+
+/// One committed batch of a sequence. `want_wide` steers the leaf-layer group (the matrices of the
+/// tallest height) above / below one sponge rate block; shorter (injected) matrices get a random
+/// narrow or wide row.
+fn gen_commit(rng: &mut SmallRng, ci: &ConfigInfo, hiding: bool, ext_leaves: bool, want_wide: bool) -> Shape {
+    let leaf_dim = if ext_leaves { ci.d } else { 1 };
+    let salt = if hiding { SALT } else { 0 };
+    let n = *pick(rng, &[1usize, 1, 2, 2, 3]);
+    let log_max = *pick(rng, &[0u32, 1, 2, 2, 3, 3, 4, 4, 5, 6]);
+    let style = rng.random_range(0..10u32);
+    let mut heights: Vec<usize> = if style < 3 {
+        vec![1usize << log_max; n]
+    } else if style < 8 {
+        (0..n).map(|m| if m == 0 { 1usize << log_max } else { 1usize << rng.random_range(0..=log_max) }).collect()
+    } else {
+        // non-power-of-two tallest matrix, the others on the native ladder ceil(max / 2^k)
+        let lo = if log_max == 0 { 1 } else { (1usize << (log_max - 1)) + 1 };
+        let max_h = rng.random_range(lo..=(1usize << log_max));
+        let log = p3_util::log2_ceil_usize(max_h) as u32;
+        (0..n)
+            .map(|m| {
+                let k = if m == 0 { 0 } else { rng.random_range(0..=log) };
+                ((max_h - 1) >> k) + 1
+            })
+            .collect()
+    };
+    let r = rng.random_range(0..n);
+    heights.rotate_left(r); // the tallest matrix is not always matrix 0
+    let max_h = *heights.iter().max().unwrap();
+    let members: Vec<usize> = (0..n).filter(|&m| heights[m] == max_h).collect();
+    let g = members.len();
+    let aligned = chance(rng, 1, 4);
+    let total_words = match (want_wide, aligned) {
+        (true, true) => ci.rate * rng.random_range(2..=3usize),
+        (true, false) => rng.random_range(ci.rate + 1..=3 * ci.rate + 5),
+        (false, true) => ci.rate,
+        (false, false) => rng.random_range(1..=ci.rate),
+    };
+    let data = total_words.saturating_sub(g * salt);
+    let total_el = if want_wide { data.div_ceil(leaf_dim) } else { data / leaf_dim }.max(g);
+    let mut widths = vec![0usize; n];
+    for (m, w) in members.iter().zip(compose(rng, total_el, g)) {
+        widths[*m] = w;
+    }
+    for w in widths.iter_mut().filter(|w| **w == 0) {
+        *w = if chance(rng, 3, 10) {
+            (ci.rate + 1 + rng.random_range(0..ci.rate)).div_ceil(leaf_dim)
+        } else {
+            rng.random_range(1..=(ci.rate / leaf_dim).max(1))
+        };
+    }
+    let log = p3_util::log2_ceil_usize(max_h);
+    let cap_height = if chance(rng, 1, 2) { 0 } else { rng.random_range(0..=log.min(3)) };
+    let mut shape = Shape {
+        config: ci.name.to_string(),
+        dims: heights.into_iter().zip(widths).collect(),
+        cap_height,
+        hiding,
+        ext_leaves,
+        mat_seed: rng.random::<u64>(),
+    };
+    if known_arity4_cap_layer_w2(ci.arity4, &shape) {
+        shape.cap_height = if chance(rng, 1, 2) { 0 } else { 2 };
+    }
+    shape
+}
+
+fn gen_seq(seed: u64, i: usize) -> SeqCase {
+    let mut rng = case_rng(seed, "c08-multi", i as u64);
+    let ci = &CONFIGS[i % CONFIGS.len()];
+    let round = i / CONFIGS.len();
+    let n_open = match rng.random_range(0..20u32) {
+        0..9 => 2usize,
+        9..16 => 3,
+        _ => 4,
+    };
+    // which commitment each opening belongs to
+    let assign: Vec<usize> = match round % 3 {
+        0 => vec![0; n_open],
+        1 => (0..n_open).collect(),
+        _ => {
+            let nc = if n_open == 4 && chance(&mut rng, 1, 2) { 3 } else { 2 };
+            let mut a: Vec<usize> = (0..n_open).map(|j| if j < nc { j } else { rng.random_range(0..nc) }).collect();
+            if n_open >= 3 && chance(&mut rng, 1, 2) {
+                a.swap(1, n_open - 1); // e.g. [0,1,0] -> [0,0,1]
+            }
+            a
+        }
+    };
+    let n_commits = assign.iter().max().unwrap() + 1;
+    // hiding flavour of the commitments (arity 2 only): all plain / all hiding / mixed
+    let hiding_mode = if ci.arity4 { 0 } else { (round / 3) % 3 };
+    let commits: Vec<Shape> = (0..n_commits)
+        .map(|_| {
+            let hiding = match hiding_mode {
+                0 => false,
+                1 => true,
+                _ => chance(&mut rng, 1, 2),
+            };
+            let ext = chance(&mut rng, 1, 2);
+            let wide = chance(&mut rng, 3, 5);
+            gen_commit(&mut rng, ci, hiding, ext, wide)
+        })
+        .collect();
+    let mut openings: Vec<(usize, usize)> = vec![];
+    for &c in &assign {
+        let max_h = max_height(&commits[c]);
+        let mut index = 0;
+        for _ in 0..4 {
+            index = match rng.random_range(0..4u32) {
+                0 => 0,
+                1 => max_h - 1,
+                _ => rng.random_range(0..max_h),
+            };
+            if !openings.contains(&(c, index)) {
+                break;
+            }
+        }
+        openings.push((c, index));
+    }
+    let share_cap = n_commits < n_open && chance(&mut rng, 1, 3);
+    let grouped_private_data = rng.random_range(0..3u32) as u8;
+    SeqCase { config: ci.name.to_string(), commits, openings, share_cap, grouped_private_data }
+}
+
+fn run_seq_case(case: &SeqCase, mode: &MultiMode, tier: Tier, seed: u64, seq_idx: usize) -> Vec<CaseResult> {
+    match config_by_name(&case.config) {
+        Some(ci) => (ci.run_multi)(case, mode, tier, seed, seq_idx),
+        None => vec![CaseResult::inconclusive("unknown-config", format!("unknown config {}", case.config))],
+    }
+}
+
+/// Move the per-(config, sequence class) counters (`mo|config|class|name`) and the samples of the
+/// multi-opening results into a table of their own (evidence: `coverage.multi_opening`).
+fn split_multi_tables(
+    results: &mut [CaseResult],
+    table: &mut BTreeMap<String, BTreeMap<String, BTreeMap<String, u64>>>,
+    samples: &mut Vec<Value>,
+) {
+    for r in results.iter_mut() {
+        let mut keep = vec![];
+        for (name, v) in std::mem::take(&mut r.counters) {
+            match name.strip_prefix("mo|") {
+                Some(rest) => {
+                    let p: Vec<&str> = rest.splitn(3, '|').collect();
+                    if p.len() == 3 {
+                        *table.entry(p[0].into()).or_default().entry(p[1].into()).or_default().entry(p[2].into()).or_default() += v;
+                    }
+                }
+                None => keep.push((name, v)),
+            }
+        }
+        r.counters = keep;
+        if let Some(s) = r.sample.take() {
+            if samples.len() < 6 {
+                samples.push(s);
+            }
+        }
+    }
+}
+
 fn main() {
     let args = parse_args();
     let mut rep = Report::new(
@@ -1242,7 +2183,12 @@ fn main() {
          native verdict (p3_merkle_tree verify_batch) compared with the circuit verdict (CircuitRunner::run \
          Ok/Err) on the SAME altered opening; non-trivial = the honest opening at that index was accepted by \
          both sides first; distinct by (config, dims, cap, hiding, leaf field, index class \
-         first/last/mid0..3, alteration kind)",
+         first/last/mid0..3, alteration kind). Second workload (multi-opening): case = (config, sequence of \
+         2-4 openings of 1-4 commitments verified in ONE circuit, position of the single altered opening, \
+         alteration); the circuit verdict is compared with the conjunction of the native verdicts of all \
+         openings; non-trivial = the all-honest sequence was accepted by both sides first; distinct by \
+         (config, commitments' dims/cap/hiding/leaf field, opening order and index classes, cap sharing, \
+         position class first/middle/last, alteration kind)",
     );
     rep.assume("p3_merkle_tree::{MerkleTreeMmcs, MerkleTreeHidingMmcs} and p3_commit::ExtensionMmcs verify_batch is the reference verdict");
     rep.assume("index bits are boolean (the FRI verifier derives them by bit decomposition); opened base-field leaves are base-field values");
@@ -1251,6 +2197,17 @@ fn main() {
     if let Some(p) = &args.replay {
         let v: Value = serde_json::from_str(&std::fs::read_to_string(p).expect("replay file")).expect("json");
         let d = if v.get("detail").is_some() { &v["detail"] } else { &v };
+        if d.get("multi").is_some() {
+            let case: SeqCase = serde_json::from_value(d["multi"].clone()).expect("multi case");
+            let alt: Alt = serde_json::from_value(d["alt"].clone()).unwrap_or(Alt::Honest);
+            let pos = d["alt_pos"].as_u64().unwrap_or(0) as usize;
+            let rs = run_seq_case(&case, &MultiMode::Replay { pos, alt }, args.tier, args.seed, 0);
+            for r in &rs {
+                println!("replay: key={} verdict={:?}", r.key, r.verdict);
+            }
+            rep.add_all(rs);
+            rep.finish(0);
+        }
         let shape: Shape = serde_json::from_value(d["shape"].clone()).expect("shape");
         let index = d["index"].as_u64().unwrap_or(0) as usize;
         let alt: Alt = serde_json::from_value(d["alt"].clone()).unwrap_or(Alt::Honest);
@@ -1270,8 +2227,19 @@ fn main() {
         rep.finish(0);
     }
 
+    if let Some(s) = args.extra.get("seq") {
+        // explicit multi-opening sequence (all positions of the tier, all alteration kinds)
+        let case: SeqCase = serde_json::from_str(s).expect("--seq json");
+        let rs = run_seq_case(&case, &MultiMode::Explore, args.tier, args.seed, 0);
+        rep.add_all(rs);
+        rep.finish(0);
+    }
+
+    // --workload single|multi|all (default all): which of the two workloads to run
+    let workload = args.extra.get("workload").map(String::as_str).unwrap_or("all").to_string();
     let n = args.tier.pick(QUICK_N, THOROUGH_N);
     let n = args.extra.get("n").and_then(|s| s.parse().ok()).unwrap_or(n);
+    let n = if workload == "multi" { 0 } else { n };
     let (seed, tier) = (args.seed, args.tier);
     let from: usize = args.extra.get("from").and_then(|s| s.parse().ok()).unwrap_or(0);
     // chunked so that the per-case result strings of a long run are not all held in memory
@@ -1286,13 +2254,41 @@ fn main() {
         rep.add_all(results);
         done += m;
     }
+    // ---- multi-opening workload
+    let n_multi = args.tier.pick(QUICK_MULTI_N, THOROUGH_MULTI_N);
+    let n_multi = args.extra.get("multi-n").and_then(|s| s.parse().ok()).unwrap_or(n_multi);
+    let n_multi = if workload == "single" { 0 } else { n_multi };
+    let multi_from: usize = args.extra.get("multi-from").and_then(|s| s.parse().ok()).unwrap_or(0);
+    let mut table: BTreeMap<String, BTreeMap<String, BTreeMap<String, u64>>> = BTreeMap::new();
+    let mut multi_samples: Vec<Value> = vec![];
+    let mut done = 0;
+    while done < n_multi {
+        let m = (n_multi - done).min(2048);
+        let base = multi_from + done;
+        let mut results = run_cases(m, args.threads, |i| {
+            let case = gen_seq(seed, i + base);
+            run_seq_case(&case, &MultiMode::Explore, tier, seed, i + base)
+        });
+        split_multi_tables(&mut results, &mut table, &mut multi_samples);
+        rep.add_all(results);
+        done += m;
+    }
+    if n_multi > 0 {
+        rep.set_extra(
+            "multi_opening",
+            json!({"sequences_generated": n_multi, "per_config_and_sequence_class": table, "samples": multi_samples}),
+        );
+    }
     for (set, item) in OBS.lock().unwrap().iter() {
         rep.observe(set, item.clone());
     }
-    rep.finish(args.tier.pick(QUICK_MIN, THOROUGH_MIN));
+    let min = if workload == "all" { args.tier.pick(QUICK_MIN, THOROUGH_MIN) } else { 0 };
+    rep.finish(min);
 }
 
 const QUICK_N: usize = 2600;
 const THOROUGH_N: usize = 120_000;
+const QUICK_MULTI_N: usize = 6500;
+const THOROUGH_MULTI_N: usize = 240_000;
 const QUICK_MIN: usize = 30_000;
 const THOROUGH_MIN: usize = 1_000_000;
